@@ -453,7 +453,14 @@ Linear_Form<C>::relative_error(
 
   C error_propagator;
   // We assume that f_base is a power of 2.
-  unsigned int u_power = msb_position(f_base) * f_mantissa_bits;
+  // MANTISSA_BITS counts bits, not digits.  Binary formats have a leading
+  // (hidden or explicit) one: an ulp is at most 2^-MANTISSA_BITS times the
+  // value.  In the other formats (IBM: base 16, no hidden digit) the leading
+  // digit can be as small as 1, so that an ulp is up to
+  // base^(1 - digits) = 2^-(MANTISSA_BITS - log2(base)) times the value.
+  unsigned int u_power = (f_base == 2)
+    ? f_mantissa_bits
+    : f_mantissa_bits - msb_position(f_base);
   int neg_power = -static_cast<int>(u_power);
   analyzer_format lb = static_cast<analyzer_format>(ldexp(1.0, neg_power));
 
